@@ -3,7 +3,7 @@
    finite bitset are instances) and all well-formed terms. *)
 From Coq Require Import Orders List Bool.
 From PG Require Import Model.VS Model.Term Model.Range Model.Instances Proofs.VSLaws Proofs.TermProofs
-  Proofs.RangeVS Proofs.BitsetLawful Proofs.GenEq Gen.TermTables.
+  Proofs.RangeVS Proofs.BitsetLawful Proofs.GenEqTerm Gen.TermTables.
 
 Section C11.
   Context {VS Vr : Type} (O : VSOps VS Vr) (L : VSLawful O).
@@ -89,7 +89,7 @@ Theorem term_tables_match_source :
     /\ (forall t u, gen_t_is_disjoint O t u = t_is_disjoint O t u)
     /\ (forall t u, gen_t_subset_of O t u = t_subset_of O t u)
     /\ (forall t u, gen_t_relation_with O t u = t_relation_with O t u).
-Proof. intros VS Vr O. exact (GenEq.term_tables_match_source O). Qed.
+Proof. intros VS Vr O. exact (GenEqTerm.term_tables_match_source O). Qed.
 
 (* the hypotheses are satisfiable: Range over any ordered type, and the bitset with default methods *)
 Module C11Range (V : UsualOrderedTypeFull).
